@@ -139,6 +139,24 @@ class SameShapeOracle(RequiredTokensOracle):
         return self.memo[toks]
 
 
+class NoShrinkOracle(RequiredTokensOracle):
+    """Required tokens as above, and the candidate must have at least as many
+    tokens as the original: the command that only tolerates rewrites which
+    keep or enlarge the input (inlining, substitution) - the adversary for
+    simplifications that can be repeated for ever."""
+
+    def __init__(self, decider, keys, original):
+        RequiredTokensOracle.__init__(self, decider, keys, original)
+        self.n = len(original.split(' '))
+
+    def verdict(self, toks):
+        if toks not in self.memo:
+            ts = toks.split(' ')
+            self.memo[toks] = (len(ts) >= self.n
+                               and all(k in ts for k in self.required))
+        return self.memo[toks]
+
+
 class ConsistentNumeralsOracle(RequiredTokensOracle):
     """Required tokens as above, and all numerals of the candidate must be
     one and the same number: replacing a single occurrence of a constant
